@@ -264,3 +264,363 @@ Proof.
     + apply IHl in H. eapply PI_trans; eassumption.
     + unfold ret in H. injection H as ? ?; subst. exact N1.
 Qed.
+
+(* ================================================================ *)
+(** * The statement parser                                           *)
+
+Definition SI (w : list bool) (s : pst) : Prop := Inv w (cs s).
+Definition SPI (s s' : pst) : Prop := forall w, SI w s -> SI w s'.
+Lemma SPI_refl s : SPI s s. Proof. intros w I; exact I. Qed.
+Lemma SPI_trans a b c : SPI a b -> SPI b c -> SPI a c. Proof. intros H1 H2 w I. apply H2, H1, I. Qed.
+
+Lemma SI_cs w s s' : cs s' = cs s -> SI w s -> SI w s'.
+Proof. unfold SI. intros ->. auto. Qed.
+Lemma SI_upd f w s : (forall c, Inv w c -> Inv w (f c)) -> SI w s -> SI w (upd f s).
+Proof. intros Hf I. apply Hf. exact I. Qed.
+Lemma SI_adv w s : SI w s -> SI w (adv s). Proof. apply Inv_advance. Qed.
+Lemma Inv_apnl_loop w : forall fuel c, Inv w c -> Inv w (apnl_loop fuel c).
+Proof.
+  induction fuel as [|f IH]; intros c I; [exact I|]. cbn [apnl_loop].
+  destruct (cur_t c); try (apply IH; apply Inv_advance; exact I); first [exact I | apply Inv_advance; exact I].
+Qed.
+Lemma SI_apnl w s : SI w s -> SI w (apnl s). Proof. apply Inv_apnl_loop. Qed.
+Lemma SI_serr_at k n w s : SI w s -> SI w (serr_at k n s). Proof. apply Inv_add_err_at. Qed.
+Lemma SI_serr k w s : SI w s -> SI w (serr k s). Proof. apply Inv_add_err_at. Qed.
+Lemma SI_upd_err e n w s : SI w s -> SI w (upd (add_err_at e n) s). Proof. apply Inv_add_err_at. Qed.
+Lemma SI_ty_err_here site w s : SI w s -> SI w (ty_err_here site s). Proof. apply Inv_add_err. Qed.
+Lemma SI_assert_eol w s : SI w s -> SI w (assert_eol s).
+Proof. unfold assert_eol. intro I. destruct (is_at_eol (cs s)); [exact I|apply SI_serr; exact I]. Qed.
+Lemma passert_spi t s ok s' : passert t s = (ok, s') -> SPI s s'.
+Proof.
+  unfold passert. destruct (assert_token t (cs s)) as [o c] eqn:A. intro H. injection H as ? ?; subst.
+  intros w I. exact (assert_token_pi _ _ _ _ A w I).
+Qed.
+Lemma SI_passert t w s : SI w s -> SI w (snd (passert t s)).
+Proof. intro I. destruct (passert t s) as [ok s'] eqn:A. exact (passert_spi _ _ _ _ A w I). Qed.
+Lemma SI_scope_set n p w s : SI w s -> SI w (scope_set n p s).
+Proof. unfold scope_set. intro I. destruct (str_eqb _ _); [exact I|]. destruct (scs s); exact I. Qed.
+Lemma SI_mark n w s : SI w s -> SI w (mark n s). Proof. exact (fun I => I). Qed.
+Lemma SI_push_scope a b c w s : SI w s -> SI w (push_scope a b c s). Proof. exact (fun I => I). Qed.
+Lemma SI_push_inherit b w s : SI w s -> SI w (push_inherit b s). Proof. exact (fun I => I). Qed.
+Lemma SI_pop_scope w s : SI w s -> SI w (pop_scope s). Proof. exact (fun I => I). Qed.
+Lemma SI_rec w s b h : SI w s -> SI w {| cs := cs s; scs := scs s; fns := fns s; bodies := b; hds := h |}. Proof. exact (fun I => I). Qed.
+Lemma SI_validate_scope w s : SI w s -> SI w (validate_scope s).
+Proof.
+  unfold validate_scope. intro I. destruct (scs s) as [|sc r]; [exact I|].
+  generalize (sort_by_pos (filter (fun v => negb (v_used v)) (sc_vars sc))). intro l. revert s I.
+  induction l as [|x l IH]; intros s I; simpl; [exact I|]. apply IH. apply SI_serr_at. exact I.
+Qed.
+Lemma vvd_spi B n p a s ok s' : validate_var_decl B n p a s = (ok, s') -> SPI s s'.
+Proof.
+  unfold validate_var_decl. intro H.
+  repeat match type of H with (if ?b then _ else _) = _ => destruct b end; injection H as ? ?; subst; intros w I;
+    try apply SI_serr_at; exact I.
+Qed.
+Lemma SI_vvd B n p a w s : SI w s -> SI w (snd (validate_var_decl B n p a s)).
+Proof. intro I. destruct (validate_var_decl B n p a s) as [ok s'] eqn:V. exact (vvd_spi _ _ _ _ _ _ _ V w I). Qed.
+Lemma SI_finish_end w s : SI w s -> SI w (finish_end s).
+Proof. unfold finish_end. intro I. apply SI_apnl, SI_assert_eol, SI_adv, SI_passert. exact I. Qed.
+Lemma Inv_collect w s c : Inv w c -> SI w (collect s c).
+Proof.
+  unfold collect, SI. intros [S W].
+  assert (F : forall l s0, cs (fold_right mark s0 l) = cs s0) by (induction l; intro; simpl; auto).
+  unfold upd, with_cs. simpl. rewrite F. simpl. split; assumption.
+Qed.
+Lemma expr_call_spi {A} B (f : env -> nat -> pstate -> res A) s a s' :
+  (forall E fu c x c', f E fu c = Some (x, c') -> PI c c') -> expr_call B f s = Ok a s' -> SPI s s'.
+Proof.
+  unfold expr_call. intros Hf H. destruct (f _ _ _) as [[x c]|] eqn:P; [|discriminate H].
+  injection H as ? ?; subst. intros w I. apply Inv_collect. exact (Hf _ _ _ _ _ P w I).
+Qed.
+Lemma p_toplevel_spi B s a s' : p_toplevel B s = Ok a s' -> SPI s s'.
+Proof. apply expr_call_spi. intros E fu c x c'. apply toplevel_pi. apply (expr_pi E fu). Qed.
+Lemma p_expr_list_spi B s a s' : p_expr_list B s = Ok a s' -> SPI s s'.
+Proof. apply expr_call_spi. intros E fu c x c'. apply expr_list_pi. apply (expr_pi E fu). Qed.
+Lemma p_func_call_spi B nil s a s' : p_func_call B nil s = Ok a s' -> SPI s s'.
+Proof. apply expr_call_spi. intros E fu c x c'. apply func_call_pi. apply (expr_pi E fu). Qed.
+Lemma p_index_spi B left s a s' : p_index B left s = Ok a s' -> SPI s s'.
+Proof. apply expr_call_spi. intros E fu c x c'. apply index_or_slice_pi. apply (expr_pi E fu). Qed.
+Lemma p_dot_spi B left s a s' : p_dot B left s = Ok a s' -> SPI s s'.
+Proof. apply expr_call_spi. intros E fu c x c'. apply dot_pi. Qed.
+Lemma p_type_spi B s a s' : p_type B s = Ok a s' -> SPI s s'.
+Proof. apply expr_call_spi. intros E fu c x c'. apply parse_type_pi. Qed.
+
+(* backward: reduce  SI w (f (g .. s))  to a hypothesis *)
+Ltac sinv :=
+  repeat match goal with |- context[match ?m with _ => _ end] => destruct m eqn:? end;
+  cbn [fst snd];
+  repeat first
+   [ assumption
+   | match goal with
+     | H : SPI ?a ?b |- SI _ ?b => apply H
+     | A : passert _ ?x = (_, ?y) |- SI _ ?y => apply (passert_spi _ _ _ _ A)
+     | V : validate_var_decl _ _ _ _ ?x = (_, ?y) |- SI _ ?y => apply (vvd_spi _ _ _ _ _ _ _ V)
+     end
+   | match goal with
+     | |- SI _ (adv _) => apply SI_adv
+     | |- SI _ (apnl _) => apply SI_apnl
+     | |- SI _ (serr_at _ _ _) => apply SI_serr_at
+     | |- SI _ (serr _ _) => apply SI_serr
+     | |- SI _ (upd (add_err_at _ _) _) => apply SI_upd_err
+     | |- SI _ (ty_err_here _ _) => apply SI_ty_err_here
+     | |- SI _ (assert_eol _) => apply SI_assert_eol
+     | |- SI _ (snd (passert _ _)) => apply SI_passert
+     | |- SI _ (scope_set _ _ _) => apply SI_scope_set
+     | |- SI _ (mark _ _) => apply SI_mark
+     | |- SI _ (push_scope _ _ _ _) => apply SI_push_scope
+     | |- SI _ (push_inherit _ _) => apply SI_push_inherit
+     | |- SI _ (pop_scope _) => apply SI_pop_scope
+     | |- SI _ {| cs := cs _; scs := _; fns := _; bodies := _; hds := _ |} => apply SI_rec
+     | |- SI _ (validate_scope _) => apply SI_validate_scope
+     | |- SI _ (snd (validate_var_decl _ _ _ _ _)) => apply SI_vvd
+     | |- SI _ (finish_end _) => apply SI_finish_end
+     end
+   | match goal with |- context[match ?m with _ => _ end] => destruct m eqn:?; cbn [fst snd] end ].
+
+Ltac sub_spi P :=
+  first [ apply p_toplevel_spi in P | apply p_expr_list_spi in P | apply p_func_call_spi in P | apply p_index_spi in P
+        | apply p_dot_spi in P | apply p_type_spi in P ].
+Ltac schew H :=
+  repeat (first
+    [ discriminate H
+    | match type of H with
+      | Ok _ _ = Ok _ _ => fail 1
+      | (match ?m with _ => _ end) = Ok _ _ =>
+          lazymatch m with
+          | context[match _ with _ => _ end] => fail
+          | _ => let P := fresh "P" in first [ destruct m as [? ?| |] eqn:P | destruct m eqn:P ]; try sub_spi P
+          end
+      end ]).
+Ltac sfin H := solve [ apply Ok_inj in H as [? ?]; subst; intros w I; sinv ].
+
+Section StmtPI.
+Variable B : benv.
+
+Lemma typed_decl_spi s d s' : parse_typed_decl B s = Ok d s' -> SPI s s'.
+Proof. unfold parse_typed_decl. intro H. schew H; sfin H. Qed.
+Ltac sub_spi P ::=
+  first [ apply p_toplevel_spi in P | apply p_expr_list_spi in P | apply p_func_call_spi in P | apply p_index_spi in P
+        | apply p_dot_spi in P | apply p_type_spi in P | apply typed_decl_spi in P ].
+
+Lemma typed_decl_stmt_spi s r s' : parse_typed_decl_stmt B s = Ok r s' -> SPI s s'.
+Proof. unfold parse_typed_decl_stmt. intro H. schew H; sfin H. Qed.
+
+Lemma inferred_decl_stmt_spi s r s' : parse_inferred_decl_stmt B s = Ok r s' -> SPI s s'.
+Proof. unfold parse_inferred_decl_stmt. intro H. cbv zeta in H. schew H; sfin H. Qed.
+
+Lemma assign_target_loop_spi : forall fuel tok n s r s', assign_target_loop B fuel tok n s = Ok r s' -> SPI s s'.
+Proof.
+  induction fuel as [|f IH]; intros tok n s r s' H; [discriminate|]. cbn [assign_target_loop] in H.
+  destruct (ct s); try (apply Ok_inj in H as [? ?]; subst; apply SPI_refl).
+  - destruct (tyerr_s B _ _ _); [sfin H|].
+    destruct (p_index B n s) as [x s1| |] eqn:P; try discriminate H. apply p_index_spi in P.
+    destruct x; [apply IH in H; eapply SPI_trans; eassumption|sfin H].
+  - destruct (p_dot B n s) as [x s1| |] eqn:P; try discriminate H. apply p_dot_spi in P.
+    destruct x; [apply IH in H; eapply SPI_trans; eassumption|sfin H].
+Qed.
+
+Lemma assign_target_spi s r s' : parse_assign_target B s = Ok r s' -> SPI s s'.
+Proof.
+  unfold parse_assign_target. intro H.
+  destruct (str_eqb _ _); [sfin H|]. destruct (negb _); [sfin H|].
+  apply assign_target_loop_spi in H. intros w I. apply H. sinv.
+Qed.
+Ltac sub_spi P ::=
+  first [ apply p_toplevel_spi in P | apply p_expr_list_spi in P | apply p_func_call_spi in P | apply p_index_spi in P
+        | apply p_dot_spi in P | apply p_type_spi in P | apply typed_decl_spi in P | apply assign_target_spi in P ].
+
+Lemma assign_stmt_spi s r s' : parse_assign_stmt B s = Ok r s' -> SPI s s'.
+Proof. unfold parse_assign_stmt. intro H. cbv zeta in H. schew H; sfin H. Qed.
+
+Lemma call_stmt_spi s r s' : parse_call_stmt B s = Ok r s' -> SPI s s'.
+Proof. unfold parse_call_stmt. intro H. schew H; sfin H. Qed.
+
+Lemma break_stmt_spi s r s' : parse_break_stmt s = Ok r s' -> SPI s s'.
+Proof. unfold parse_break_stmt. intro H. sfin H. Qed.
+
+Lemma return_stmt_spi s r s' : parse_return_stmt B s = Ok r s' -> SPI s s'.
+Proof.
+  unfold parse_return_stmt. intro H. cbv zeta in H.
+  destruct (is_at_eol (cs (adv s))); [sfin H|].
+  destruct (p_toplevel B (adv s)) as [x s2| |] eqn:P; try discriminate H. apply p_toplevel_spi in P.
+  destruct x; sfin H.
+Qed.
+
+Lemma condition_spi s r s' : parse_condition B s = Ok r s' -> SPI s s'.
+Proof. unfold parse_condition. intro H. schew H; sfin H. Qed.
+
+Lemma empty_stmt_spi s r s' : parse_empty_stmt s = Ok r s' -> SPI s s'.
+Proof. unfold parse_empty_stmt. intro H. destruct (ct s); try discriminate H; sfin H. Qed.
+
+(* ---- the part that is open in parseStatement ---- *)
+Variable ps : pst -> PR (option stmt).
+Hypothesis HPS : forall s r s', ps s = Ok r s' -> SPI s s'.
+
+Lemma block_loop_spi : forall fuel els acc terms s b s', block_loop ps fuel els acc terms s = Ok b s' -> SPI s s'.
+Proof.
+  induction fuel as [|f IH]; intros els acc terms s b s' H; [discriminate|]. cbn [block_loop] in H.
+  destruct (match ct s with T_END | T_EOF => true | T_ELSE => els | _ => false end);
+    [apply Ok_inj in H as [? ?]; subst; apply SPI_refl|].
+  destruct (ps s) as [r s1| |] eqn:P; try discriminate H. apply HPS in P.
+  destruct r as [st|]; [destruct (terms && negb (is_empty_stmt st))|]; apply IH in H;
+    (eapply SPI_trans; [exact P|]); [|exact H|exact H].
+  intros w I. apply H. sinv.
+Qed.
+
+Lemma block_with_spi fuel els s b s' : parse_block_with ps fuel els s = Ok b s' -> SPI s s'.
+Proof.
+  unfold parse_block_with. intro H.
+  destruct (block_loop ps fuel els [] false s) as [b1 s1| |] eqn:P; try discriminate H. apply block_loop_spi in P.
+  sfin H.
+Qed.
+Ltac sub_spi P ::=
+  first [ apply p_toplevel_spi in P | apply p_expr_list_spi in P | apply p_func_call_spi in P | apply p_index_spi in P
+        | apply p_dot_spi in P | apply p_type_spi in P | apply typed_decl_spi in P | apply assign_target_spi in P
+        | apply condition_spi in P | apply block_with_spi in P ].
+
+Lemma while_stmt_spi fuel s r s' : parse_while_stmt B ps fuel s = Ok r s' -> SPI s s'.
+Proof. unfold parse_while_stmt. intro H. cbv zeta in H. schew H; sfin H. Qed.
+
+Lemma if_cond_block_spi fuel s cb s' : parse_if_cond_block B ps fuel s = Ok cb s' -> SPI s s'.
+Proof. unfold parse_if_cond_block. intro H. cbv zeta in H. schew H; sfin H. Qed.
+
+Lemma else_if_loop_spi : forall fuel bfuel acc s r s', else_if_loop B ps fuel bfuel acc s = Ok r s' -> SPI s s'.
+Proof.
+  induction fuel as [|f IH]; intros bfuel acc s r s' H; [discriminate|]. cbn [else_if_loop] in H.
+  destruct (ct s); try (apply Ok_inj in H as [? ?]; subst; apply SPI_refl).
+  destruct (ttype (peek (cs s))); try (apply Ok_inj in H as [? ?]; subst; apply SPI_refl).
+  destruct (parse_if_cond_block B ps bfuel (adv s)) as [cb s1| |] eqn:P; try discriminate H.
+  apply if_cond_block_spi in P. apply IH in H. intros w I. apply H, P. sinv.
+Qed.
+
+Lemma if_stmt_spi fuel s r s' : parse_if_stmt B ps fuel s = Ok r s' -> SPI s s'.
+Proof.
+  unfold parse_if_stmt. intro H.
+  destruct (parse_if_cond_block B ps fuel s) as [cb s1| |] eqn:P1; try discriminate H. apply if_cond_block_spi in P1.
+  destruct (else_if_loop B ps (S (pos s1)) fuel [cb] s1) as [brs s2| |] eqn:P2; try discriminate H. apply else_if_loop_spi in P2.
+  destruct (ct s2); try sfin H.
+  cbv zeta in H. destruct (parse_block_with ps fuel false _) as [b s4| |] eqn:PB; try discriminate H.
+  apply block_with_spi in PB. sfin H.
+Qed.
+
+Lemma for_stmt_spi fuel s r s' : parse_for_stmt B ps fuel s = Ok r s' -> SPI s s'.
+Proof.
+  unfold parse_for_stmt. intro H. cbv zeta in H.
+  set (s1 := adv (push_inherit true s)) in H.
+  match type of H with (match ?lv with _ => _ end) = _ => set (LV := lv) in H end.
+  assert (NL : SPI s (snd LV)).
+  { unfold LV, s1. intros w I. destruct (ct _); cbn [snd]; sinv. }
+  destruct LV as [[v|] s4]; cbn [snd] in NL; [|sfin H].
+  destruct (passert T_RANGE s4) as [ok s5] eqn:A.
+  destruct ok; cbn [negb] in H; [|sfin H].
+  destruct (p_expr_list B (adv s5)) as [ns s7| |] eqn:P; try discriminate H. apply p_expr_list_spi in P.
+  destruct (match ns with Some l => l | None => [] end) as [|n more]; [sfin H|].
+  destruct (_ && _); [sfin H|].
+  destruct (parse_block_with ps fuel false _) as [b s10| |] eqn:PB; try discriminate H. apply block_with_spi in PB.
+  sfin H.
+Qed.
+
+Lemma statement_body_spi fuel s r s' : parse_statement_body B ps fuel s = Ok r s' -> SPI s s'.
+Proof.
+  unfold parse_statement_body. intro H.
+  destruct (ct s); try sfin H.
+  - apply empty_stmt_spi in H. exact H.
+  - destruct (ttype (peek (cs s)));
+      try (apply assign_stmt_spi in H; exact H); try (apply typed_decl_stmt_spi in H; exact H);
+      try (apply inferred_decl_stmt_spi in H; exact H);
+      (destruct (is_func (tlit (cur (cs s))) s); [apply call_stmt_spi in H; exact H|]);
+      try (apply assign_stmt_spi in H; exact H); sfin H.
+  - apply empty_stmt_spi in H. exact H.
+  - apply if_stmt_spi in H. exact H.
+  - apply return_stmt_spi in H. exact H.
+  - apply for_stmt_spi in H. exact H.
+  - apply while_stmt_spi in H. exact H.
+Qed.
+
+End StmtPI.
+
+Section ProgramPI.
+Variable B : benv.
+
+Theorem stmt_spi : forall fuel s r s', parse_statement B fuel s = Ok r s' -> SPI s s'.
+Proof.
+  induction fuel as [|f IH]; intros s r s' H; [discriminate|]. cbn [parse_statement] in H.
+  apply (statement_body_spi B (parse_statement B f) IH) in H. exact H.
+Qed.
+
+Lemma parse_block_spi fuel s b s' : parse_block B fuel s = Ok b s' -> SPI s s'.
+Proof. unfold parse_block. apply block_with_spi. apply stmt_spi. Qed.
+
+Lemma add_params_spi l : forall s, SPI s (add_params B l s).
+Proof.
+  unfold add_params. induction l as [|x l IH]; intro s; simpl; [apply SPI_refl|].
+  eapply SPI_trans; [|apply IH]. intros w I. sinv.
+Qed.
+
+Lemma on_params_loop_spi : forall fuel acc s r s', on_params_loop B fuel acc s = Ok r s' -> SPI s s'.
+Proof.
+  induction fuel as [|f IH]; intros acc s r s' H; [discriminate|]. cbn [on_params_loop] in H.
+  destruct (is_at_eol (cs s)); [apply Ok_inj in H as [? ?]; subst; apply SPI_refl|].
+  destruct (parse_typed_decl B (snd (passert T_IDENT s))) as [d s1| |] eqn:P; try discriminate H.
+  apply typed_decl_spi in P. apply IH in H. intros w I. apply H, P. sinv.
+Qed.
+
+Lemma add_event_params_spi ps : forall ex s, SPI s (add_event_params B ps ex s).
+Proof.
+  induction ps as [|[[n p] t] ps IH]; intros ex s; simpl; [apply SPI_refl|].
+  destruct ex as [|e ex]; [apply SPI_refl|].
+  eapply SPI_trans; [|apply IH]. intros w I. sinv.
+Qed.
+
+Lemma func_spi fuel s r s' : parse_func B fuel s = Ok r s' -> SPI s s'.
+Proof.
+  unfold parse_func. intro H. cbv zeta in H.
+  match type of H with context[parse_block B fuel ?x] => set (s3 := x) in H end.
+  destruct (parse_block B fuel s3) as [b s4| |] eqn:PB; try discriminate H. apply parse_block_spi in PB.
+  assert (N3 : SPI s s3) by (unfold s3; intros w I; apply add_params_spi; sinv).
+  destruct (negb _); [sfin H|]. destruct (mem_str _ _); [sfin H|].
+  apply Ok_inj in H as [? ?]; subst. intros w I.
+  match goal with |- SI w (pop_scope {| cs := cs ?x; scs := _; fns := _; bodies := _; hds := _ |}) => apply (SI_cs w x); [reflexivity|] end.
+  sinv.
+Qed.
+
+Lemma event_handler_spi fuel s r s' : parse_event_handler B fuel s = Ok r s' -> SPI s s'.
+Proof.
+  unfold parse_event_handler. intro H. cbv zeta in H.
+  destruct (passert T_IDENT (adv s)) as [ok s2] eqn:A.
+  destruct ok; cbn [negb] in H; [|sfin H].
+  match type of H with context[on_params_loop B _ [] (adv ?x)] => set (s3 := x) in H end.
+  assert (N3 : SPI s2 s3).
+  { unfold s3. intros w I. destruct (mem_str _ _); [sinv|]. destruct (lookup_ev _ _); [exact I|sinv]. }
+  destruct (on_params_loop B (S (pos s3)) [] (adv s3)) as [params s4| |] eqn:PL; try discriminate H.
+  apply on_params_loop_spi in PL.
+  match type of H with context[parse_block B fuel ?x] => set (s6 := x) in H end.
+  destruct (parse_block B fuel s6) as [b s7| |] eqn:PB; try discriminate H. apply parse_block_spi in PB.
+  assert (N6 : SPI s4 s6).
+  { unfold s6. intros w I. destruct params as [|d ds]; [sinv|]. destruct (lookup_ev _ _); [|sinv].
+    apply add_event_params_spi. sinv. }
+  sfin H.
+Qed.
+
+Lemma program_loop_spi : forall fuel acc terms s p s', program_loop B fuel acc terms s = Ok p s' -> SPI s s'.
+Proof.
+  induction fuel as [|f IH]; intros acc terms s p s' H; [discriminate|]. cbn [program_loop] in H.
+  assert (DS : (pdo (r, s1) <- parse_statement B f s;
+        match r with
+        | None => program_loop B f acc terms s1
+        | Some st => if terms then program_loop B f acc terms (serr_at K_unreachable (pos s) s1)
+                     else program_loop B f (st :: acc) (always_terms st) s1
+        end) = Ok p s' -> SPI s s').
+  { intro H1. destruct (parse_statement B f s) as [r s1| |] eqn:P; try discriminate H1.
+    apply stmt_spi in P.
+    destruct r as [st|]; [destruct terms|]; apply IH in H1; (eapply SPI_trans; [exact P|]); [|exact H1|exact H1].
+    intros w I. apply H1. sinv. }
+  destruct (ct s); try exact (DS H).
+  - apply Ok_inj in H as [? ?]; subst. apply SPI_refl.
+  - destruct (parse_func B f s) as [r s1| |] eqn:P; try discriminate H. apply IH in H. apply func_spi in P.
+    eapply SPI_trans; eassumption.
+  - destruct (parse_event_handler B f s) as [r s1| |] eqn:P; try discriminate H. apply IH in H. apply event_handler_spi in P.
+    eapply SPI_trans; eassumption.
+Qed.
+
+End ProgramPI.
